@@ -27,7 +27,9 @@ fn position_size(svm: &hostsvm::Svm, p: &Pubkey) -> Option<(u128, u128, u128)> {
 }
 
 fn sim_part(args: &Args, shard: u64, m: &mut Monitor) {
-    let steps = args.scale(300, 800);
+    // sized so that the minimum observation counts below are met with a wide margin at every seed
+    // (the exchange workload also spends steps on GLV actions and ADL steering)
+    let steps = args.scale(900, 2400);
     let mut sim = Sim::new(args.seed, shard);
     for step in 0..steps {
         let rec = sim.step();
